@@ -685,6 +685,11 @@ def run_cand(prop, tier, seed, model=True):
             rnd.shuffle(b)
             allf = a[:14] + b[:10] if prop == 'C03' else a[:4] + b[:3]
         fam = allf
+    if prop == 'C20':
+        # the sharing family: one request may stand for several anchors, which a limit must not count
+        allf = list(range(36))
+        rnd.shuffle(allf)
+        fam = allf[:6] if tier == 'quick' else allf
     for w in range(nw):
         ss = seeds[w::nw]
         ff = fam[w::nw]
